@@ -29,6 +29,8 @@ ASSUMPTIONS = [
     "tempo/SV point",
     "pandas sort_values(kind='stable') is modelled as a stable insertion sort (the `kind` arguments are read by the "
     "translator; before the fix of D28 the default unstable sort decided ties at the last offset)",
+    "the hypothesis `no SV before the first stacked offset` of scroll_speed_spec holds by construction (the first "
+    "stacked offset is the minimum over notes, tempo points and SVs)",
     "coinciding SVs: the specification accepts any of them, the model takes the last in row order as the code does",
 ]
 TRUSTED_EXTRA = ["pandas groupby/merge/ffill/bfill/drop_duplicates/idxmax are modelled as list operations (Model/Analysis.lean)"]
